@@ -35,7 +35,7 @@ ASSUMPTIONS = ["history-freeness is checked for the final live set of each histo
 
 def budget(tier: str) -> dict[str, Any]:
     if tier == "quick":
-        return {"shards": 8, "cases": 1200}
+        return {"shards": 8, "cases": 4800}
     return {"shards": 32, "cases": 20000, "hashseeds": [0, 1, 2, 3, 4, 5, 6, 7]}
 
 
